@@ -43,6 +43,7 @@ func checkC13(c *Ctx) {
 	c.Rule("C13-R12", "only calls whose contract is a repaint can force cells dirty: every force-dirty site of the terminfo screen is reached from Show (C13-R2), Sync, Init/Resume, Suspend/Fini, LockRegion, SetSize or the main loop's size report only; a setter that forces a repaint does so behind a test that the value really changes (against the field it assigns)")
 	c.Expect("C13-R12", 3)
 	checkForceDirtyEntries(c, p, "C13-R12", "tScreen")
+	checkForceDirtyEntries(c, p, "C13-R12", "baseScreen")
 	c.Rule("C13-R13", "every Show looks at every cell: nothing but the running state stands between draw and the cell loop, or — if a flag does — everything that can make a cell dirty (force-dirty marker, unlock, content store) raises it (an unlocked region is repainted by the first Show after the unlock)")
 	c.Expect("C13-R13", 1)
 	checkCellLoopGate(c, p, "C13-R13", "tScreen")
@@ -52,6 +53,9 @@ func checkC13(c *Ctx) {
 	c.Rule("C13-R15", "writes cell content only to changed cells: capability strings reach the frame buffer through terminfo's TPuts, which removes the $<n> padding markers (appended verbatim, vt100's cup and sgr0 print '$<5>' and '$<2>' over neighbouring cells)")
 	c.Expect("C13-R15", 1)
 	checkCapabilitiesThroughStripper(c, p, "C13-R15")
+	c.Rule("C13-R16", "a Show with no change writes no cell content: each pass starts from an empty frame buffer (draw resets it before the flush; bytes.Buffer.WriteTo keeps what a short write left over, and an idle Show would send the rest of the previous frame)")
+	c.Expect("C13-R16", 1)
+	checkFrameBufferStartsEmpty(c, p, "C13-R16")
 	c.Rule("C13-R10", "a cell marked dirty (marker rune zero: SetDirty(true), Invalidate, UnlockCell) is reported dirty whatever it holds, also one nothing was ever stored in; combining runes are compared in full")
 	c.Expect("C13-R10", 2)
 	c.asRule("C08-R9", "C13-R10", func() { checkDirtyDecisions(c, p, "C08-R9") })
@@ -93,58 +97,7 @@ func checkC13(c *Ctx) {
 	checkCleanMarkCallers(c, p, "C13-R1")
 	c.asRule("C08-R2", "C13-R7", func() { c08Pairs(c, p, cbMethods(p)) })
 	c.asRule("C08-R3", "C13-R8", func() { c08Lock(c, p, cbMethods(p)) })
-	{
-		ws := map[string]string{}
-		whole := ""
-		copies := map[string]*ssa.Store{}
-		for _, fn := range p.modFns {
-			if fn.Pkg != p.Tcell {
-				continue
-			}
-			for _, st := range storesTo(fn, "tcell.cell", "lock") {
-				if ref, _, ok := loadedField(st.Val); ok && ref.Name == "lock" {
-					copies[fn.Name()] = st // the flag of another cell travels with its content
-					continue
-				}
-				ws[fn.Name()] = valName(st.Val)
-			}
-			eachInstr(fn, func(in ssa.Instruction) {
-				if st, ok := in.(*ssa.Store); ok && typeName(st.Val.Type()) == "tcell.cell" && !freshCellLiteral(st.Val) {
-					whole += fn.Name() + " stores a whole cell at " + p.pos(in.Pos()) + "; "
-				}
-			})
-		}
-		okCopies := true
-		for n := range copies {
-			if n != "Resize" {
-				okCopies = false
-				whole += n + " copies a lock flag between cells; "
-			}
-		}
-		ok := len(ws) == 2 && ws["LockCell"] == "true" && ws["UnlockCell"] == "false" && whole == "" && okCopies
-		c.Check(ok, "C13-R6", "cell.lock:writers", "-", fmt.Sprintf("stores to cell.lock: %v %s", ws, whole))
-		// whoever replaces the cell array while keeping the content keeps the locks: in every function that
-		// installs a new array in CellBuffer.cells and copies currMain from the old cells, the block that
-		// copies currMain also copies lock (from the same source cell)
-		for _, fn := range p.modFns {
-			if fn.Pkg != p.Tcell || len(storesTo(fn, "tcell.CellBuffer", "cells")) == 0 {
-				continue
-			}
-			for _, st := range storesTo(fn, "tcell.cell", "currMain") {
-				_, src, isCopy := loadedField(st.Val)
-				if !isCopy {
-					continue
-				}
-				carried := false
-				for _, ls := range storesTo(fn, "tcell.cell", "lock") {
-					if ref, lsrc, ok := loadedField(ls.Val); ok && ref.Name == "lock" && ls.Block() == st.Block() && sameCellAddr(lsrc, src) && sameCellAddr(fieldBase(ls.Addr), fieldBase(st.Addr)) {
-						carried = true
-					}
-				}
-				c.Check(carried, "C13-R6", fn.Name()+":lock-travels-with-content", p.pos(st.Pos()), "the cells that survive a change of the array keep their lock flag (copied next to currMain, same source and destination cell)")
-			}
-		}
-	}
+	c13LockOwnership(c, p)
 	// R4
 	lr := p.Fn("tcell:(*baseScreen).LockRegion")
 	if lr == nil {
@@ -550,4 +503,59 @@ func deferredFromDrawCell(p *Prog, tname string, f *ssa.Function) bool {
 		}
 	})
 	return hit
+}
+
+// c13LockOwnership: who writes a cell's lock flag, and that it travels with the content (C13-R6).
+func c13LockOwnership(c *Ctx, p *Prog) {
+
+	ws := map[string]string{}
+	whole := ""
+	copies := map[string]*ssa.Store{}
+	for _, fn := range p.modFns {
+		if fn.Pkg != p.Tcell {
+			continue
+		}
+		for _, st := range storesTo(fn, "tcell.cell", "lock") {
+			if ref, _, ok := loadedField(st.Val); ok && ref.Name == "lock" {
+				copies[fn.Name()] = st // the flag of another cell travels with its content
+				continue
+			}
+			ws[fn.Name()] = valName(st.Val)
+		}
+		eachInstr(fn, func(in ssa.Instruction) {
+			if st, ok := in.(*ssa.Store); ok && typeName(st.Val.Type()) == "tcell.cell" && !freshCellLiteral(st.Val) {
+				whole += fn.Name() + " stores a whole cell at " + p.pos(in.Pos()) + "; "
+			}
+		})
+	}
+	okCopies := true
+	for n := range copies {
+		if n != "Resize" {
+			okCopies = false
+			whole += n + " copies a lock flag between cells; "
+		}
+	}
+	ok := len(ws) == 2 && ws["LockCell"] == "true" && ws["UnlockCell"] == "false" && whole == "" && okCopies
+	c.Check(ok, "C13-R6", "cell.lock:writers", "-", fmt.Sprintf("stores to cell.lock: %v %s", ws, whole))
+	// whoever replaces the cell array while keeping the content keeps the locks: in every function that
+	// installs a new array in CellBuffer.cells and copies currMain from the old cells, the block that
+	// copies currMain also copies lock (from the same source cell)
+	for _, fn := range p.modFns {
+		if fn.Pkg != p.Tcell || len(storesTo(fn, "tcell.CellBuffer", "cells")) == 0 {
+			continue
+		}
+		for _, st := range storesTo(fn, "tcell.cell", "currMain") {
+			_, src, isCopy := loadedField(st.Val)
+			if !isCopy {
+				continue
+			}
+			carried := false
+			for _, ls := range storesTo(fn, "tcell.cell", "lock") {
+				if ref, lsrc, ok := loadedField(ls.Val); ok && ref.Name == "lock" && ls.Block() == st.Block() && sameCellAddr(lsrc, src) && sameCellAddr(fieldBase(ls.Addr), fieldBase(st.Addr)) {
+					carried = true
+				}
+			}
+			c.Check(carried, "C13-R6", fn.Name()+":lock-travels-with-content", p.pos(st.Pos()), "the cells that survive a change of the array keep their lock flag (copied next to currMain, same source and destination cell)")
+		}
+	}
 }
